@@ -67,7 +67,17 @@ VariantList == <<
   [class |-> "kelvin_data_I", kind |-> "I", input |-> [i \in 1..Len(IStr) |-> IF i > 16 /\ IStr[i] = 75 THEN 8490 ELSE IStr[i]]],
   [class |-> "longs_R", kind |-> "R", input |-> [i \in 1..Len(RStr) |-> IF i > 4 /\ RStr[i] = 115 THEN 383 ELSE RStr[i]]],
   [class |-> "fullwidth_R", kind |-> "R", input |-> [RStr EXCEPT ![1] = 65345]],
-  [class |-> "doti_I", kind |-> "I", input |-> [IStr EXCEPT ![5] = 304]]
+  [class |-> "doti_I", kind |-> "I", input |-> [IStr EXCEPT ![5] = 304]],
+  \* only the data part in the other case (the prefix untouched)
+  [class |-> "mixedcase_data_I", kind |-> "I", input |-> [i \in 1..Len(IStr) |-> IF i > 16 THEN Lower(IStr[i]) ELSE IStr[i]]],
+  [class |-> "mixedcase_data_R", kind |-> "R", input |-> [i \in 1..Len(RStr) |-> IF i > 4 THEN Upper(RStr[i]) ELSE RStr[i]]],
+  \* plugin strings whose human-readable part is exactly the fixed prefix (empty name), with valid checksums
+  [class |-> "plugin_hrp_bare_PI", kind |-> "PI", input |-> EncodeGroups(PluginIdPrefix, PayloadG(3))],
+  [class |-> "plugin_hrp_nodash_PI", kind |-> "PI", input |-> EncodeGroups(SubSeq(PluginIdPrefix, 1, 10), PayloadG(3))],
+  [class |-> "plugin_hrp_twodash_PI", kind |-> "PI", input |-> EncodeGroups(PluginIdPrefix \o <<45>>, PayloadG(3))],
+  [class |-> "plugin_hrp_bare_PR", kind |-> "PR", input |-> EncodeGroups(PluginRcpPrefix, PayloadG(3))],
+  [class |-> "plugin_native_as_PR", kind |-> "PR", input |-> RStr],
+  [class |-> "plugin_native_as_PI", kind |-> "PI", input |-> IStr]
 >>
 
 \* plugin strings: every name over NameAlphabet up to MaxName characters, in both positions, payload 0..2 bytes
